@@ -189,7 +189,10 @@ func (lalr *LALR1) CaclIncludeRelation(tr int) []Relation {
 			if sy == sycheck && lalr.seqenceCanEpsilon(r.RighPart[Dot+1:]) {
 				for _, q := range lalr.fechStateNumber(index) {
 					if to_index, err := lalr.fetchTransIndex(q, int(LeftSy.ID)); err == nil {
-						res = append(res, Relation{x: tr, y: to_index})
+						// q --beta--> p must hold for (p, A) includes (q, B)
+						if p, ok := lalr.walk(q, r.RighPart[:Dot]); ok && p == lalr.trans[tr].q {
+							res = append(res, Relation{x: tr, y: to_index})
+						}
 					}
 				}
 
@@ -220,8 +223,11 @@ func (lalr *LALR1) CalcLookbacks() []Relation {
 		for tr_2 := range lalr.DRSet {
 			SyIndex := lalr.trans[tr_2].sym_or_rule
 			if SyIndex == leftPart.ID {
-				// trIndex lookback tr2
-				res = append(res, Relation{x: trIndex, y: tr_2})
+				// trIndex lookback tr2 only if p --omega--> q
+				rightPart := lalr.G.ProductoinRules[ruleIndex].RighPart
+				if q, ok := lalr.walk(lalr.trans[tr_2].q, rightPart); ok && q == tr.q {
+					res = append(res, Relation{x: trIndex, y: tr_2})
+				}
 			}
 		}
 	}
